@@ -15,7 +15,7 @@ for sd in sorted(glob.glob('/verif/seeded/*/')):
         problems.append(f'{seed}: no matrix output')
         continue
     verdict = {}
-    for line in open(f):
+    for line in open(f, errors="replace"):
         m = re.match(r'^(\S+) (C\d\d): (silent|ALARM rc=(\d+))', line)
         if m and m.group(1) == seed:
             verdict[m.group(2)] = 'silent' if m.group(3) == 'silent' else 'rc' + m.group(4)
